@@ -103,3 +103,165 @@ package rsec16
 //@     invariant i >= 0
 //@     use mulLe(i, numGoroutines - 1, perGoroutineOutLength)
 //@     use mulLe(0, i, perGoroutineOutLength)
+
+// ---------------------------------------------------------------------
+// Coder (C07: frames, error conditions, shapes; C12: goroutine count only reaches the partition)
+
+//@ pred coderOK(c) = c.dataShards > 0 && c.dataShards <= 65535 && c.parityShards > 0 && c.parityShards <= 65535 && c.numGoroutines >= 1 && matOK(c.parityMatrix) && c.parityMatrix.rows == c.parityShards && c.parityMatrix.columns == c.dataShards
+
+// rowsLen(s, n): every row of s has exactly n bytes
+//@ pred rowsLen(s, n) = forall(r, 0, len(s), len(s[r]) == n, s[r])
+
+//@ func (Coder).applyMatrix
+//@   props C07 C12
+//@   requires applyOK(m, in, out) && c.numGoroutines >= 1
+//@   panics len(in[0]) != len(out[0])
+//@   modifies each r 0 len(out) : out[r][0:len(in[0])]
+
+//@ func (Coder).GenerateParity
+//@   props C07 C12
+//@   requires coderOK(c) && len(data) == c.dataShards && len(data[0]) % 2 == 0 && rowsLen(data, len(data[0]))
+//@   modifies nothing
+//@   ensures len(result) == c.parityShards && rowsLen(result, len(data[0]))
+//@   loop 0
+//@     invariant forall(r, 0, rangeindex + 1, len(parity[r]) == len(data[0]) && fresh(parity[r]), parity[r])
+
+// idxIn(s, n): every element of the index list s is in [0, n)
+//@ pred idxIn(s, n) = forall(k, 0, len(s), 0 <= s[k] && s[k] < n, s[k])
+
+//@ pred recOK(dataShards, availableRows, missingRows, usedParityRows, parityMatrix) = matOK(parityMatrix) && dataShards >= 1 && dataShards <= 65535 && parityMatrix.columns == dataShards && len(usedParityRows) >= 1 && len(usedParityRows) == len(missingRows) && len(availableRows) + len(missingRows) == dataShards && idxIn(usedParityRows, parityMatrix.rows) && idxIn(missingRows, dataShards) && idxIn(availableRows, dataShards)
+
+//@ func makeReconstructionMatrix
+//@   props C07
+//@   requires recOK(dataShards, availableRows, missingRows, usedParityRows, parityMatrix)
+//@   modifies nothing
+//@   ensures implies(result1 == nil, matOK(result0) && result0.rows == len(usedParityRows) && result0.columns == dataShards)
+
+// Element functions: called only by NewMatrixFromFunction, whose call-site assertion bounds i, j.
+//@ func makeReconstructionMatrix$1
+//@   props C07
+//@   requires matOK(parityMatrix) && idxIn(usedParityRows, parityMatrix.rows) && idxIn(missingRows, parityMatrix.columns) && len(usedParityRows) == len(missingRows) && 0 <= i && i < len(usedParityRows) && 0 <= j && j < len(usedParityRows)
+//@   modifies nothing
+
+//@ func makeReconstructionMatrix$2
+//@   props C07
+//@   requires matOK(parityMatrix) && idxIn(usedParityRows, parityMatrix.rows) && idxIn(availableRows, parityMatrix.columns) && 0 <= i && i < len(usedParityRows) && 0 <= j
+//@   modifies nothing
+
+// inRows(s, n): every row collected into the input list is a caller-supplied, non-nil row of n bytes
+//@ pred inRows(s, n) = forall(k, 0, len(s), s[k] != nil && len(s[k]) == n && !fresh(s[k]), s[k])
+//@ pred own(s) = cap(s) == 0 || fresh(s)
+// apart(a, b): two append-built lists do not share their backing array
+//@ pred apart(a, b) = cap(a) == 0 || cap(b) == 0 || !sameArray(a, b)
+
+//@ func (Coder).ReconstructData
+//@   props C07 C12
+//@   logical n
+//@   inst rangeindex + 1
+//@   inst rangeindex
+//@   inst i
+//@   requires coderOK(c) && len(data) == c.dataShards && len(parity) <= c.parityShards && n >= 0 && n % 2 == 0
+//@   requires forall(r, 0, len(data), implies(data[r] != nil, len(data[r]) == n), data[r])
+//@   requires forall(r, 0, len(parity), implies(parity[r] != nil, len(parity[r]) == n), parity[r])
+//@   modifies data[:]
+//@   ensures forall(r, 0, len(data), implies(old(data[r]) != nil, sameSlice(data[r], old(data[r]))))
+//@   ensures implies(result != nil, forall(r, 0, len(data), sameSlice(data[r], old(data[r]))))
+//@   ensures forall(r, 0, len(data), implies(data[r] != nil, len(data[r]) == n))
+//@   loop 0
+//@     modifies nothing
+//@     invariant len(availableRows) + len(missingRows) == rangeindex + 1 && len(input) == len(availableRows)
+//@     invariant own(availableRows) && own(missingRows) && own(input) && apart(availableRows, missingRows) && apart(input, missingRows) && apart(input, availableRows)
+//@     invariant idxIn(availableRows, len(data))
+//@     invariant idxIn(missingRows, len(data))
+//@     invariant inRows(input, n)
+//@     invariant forall(k, 0, len(missingRows), data[missingRows[k]] == nil, missingRows[k])
+//@   loop 1
+//@     modifies nothing
+//@     invariant len(input) == len(availableRows) + len(usedParityRows) && len(input) <= c.dataShards && i <= len(parity)
+//@     invariant own(input) && own(usedParityRows) && apart(usedParityRows, missingRows) && apart(usedParityRows, availableRows) && apart(input, missingRows) && apart(input, availableRows) && apart(input, usedParityRows)
+//@     invariant idxIn(usedParityRows, len(parity)) && inRows(input, n)
+//@     invariant idxIn(availableRows, len(data)) && idxIn(missingRows, len(data))
+//@     invariant forall(k, 0, len(missingRows), data[missingRows[k]] == nil, missingRows[k])
+//@   loop 2
+//@     modifies nothing
+//@     invariant forall(r, 0, rangeindex + 1, len(reconstructedData[r]) == n && fresh(reconstructedData[r]), reconstructedData[r])
+//@     invariant inRows(input, n) && fresh(reconstructedData) && own(input)
+//@   loop 3
+//@     invariant idxIn(missingRows, len(data)) && own(missingRows)
+//@     invariant forall(r, 0, len(reconstructedData), len(reconstructedData[r]) == n && fresh(reconstructedData[r]), reconstructedData[r])
+//@     invariant fresh(reconstructedData)
+//@     invariant forall(r, 0, len(data), implies(old(data[r]) != nil, sameSlice(data[r], old(data[r]))))
+//@     invariant forall(r, 0, len(data), implies(data[r] != nil, len(data[r]) == n))
+
+// ---- construction ------------------------------------------------------------------------
+
+// generators is written only by init (checked: frozen) and then holds the 32768 generators of
+// GF(2^16)*; its length is a closed fact evaluated on the real initialised package.
+//@ frozen generators
+//@ pred gensOK = len(generators) == 32768
+//@ lemma gensLen
+//@   props C07 C12
+//@   kind eval
+//@   ensures gensOK
+
+//@ lemma mulSmall
+//@   props C07 C12
+//@   mode int
+//@   forall a int, b int
+//@   requires 0 <= a && a <= 65535 && 0 <= b && b <= 65535
+//@   ensures mathint(a)*mathint(b) <= 4294836225
+
+//@ func newCauchyMatrix
+//@   props C07
+//@   note pure-param xFunc
+//@   note pure-param yFunc
+//@   requires rows <= 65535 && columns <= 65535
+//@   panics rows <= 0 || columns <= 0
+//@   modifies nothing
+//@   ensures matOK(result) && result.rows == rows && result.columns == columns
+//@   use mulSmall(rows, columns)
+
+//@ func newVandermondeMatrix
+//@   props C07
+//@   note pure-param alphaColumnFunc
+//@   requires rows <= 65535 && columns <= 65535
+//@   panics rows <= 0 || columns <= 0
+//@   modifies nothing
+//@   ensures matOK(result) && result.rows == rows && result.columns == columns
+//@   use mulSmall(rows, columns)
+
+//@ func newCauchyParityMatrix
+//@   props C07
+//@   requires dataShards > 0 && parityShards > 0 && mathint(dataShards) + mathint(parityShards) <= 65535
+//@   modifies nothing
+//@   ensures matOK(result) && result.rows == parityShards && result.columns == dataShards
+
+//@ func newVandermondeParityMatrix
+//@   props C07
+//@   requires dataShards > 0 && parityShards > 0 && dataShards <= 65535 && parityShards <= 65535
+//@   modifies nothing
+//@   ensures matOK(result) && result.rows == parityShards && result.columns == dataShards
+
+// The sum dataShards+parityShards is computed in 64-bit arithmetic by the real code; the
+// precondition excludes the wrap-around (two counts near 2^63), see DESIGN.md observations.
+//@ func NewCoderCauchy
+//@   props C07 C12
+//@   requires mathint(dataShards) + mathint(parityShards) <= 9223372036854775807
+//@   panics dataShards <= 0 || parityShards <= 0 || numGoroutines <= 0
+//@   modifies nothing
+//@   ensures implies(result1 == nil, coderOK(result0) && result0.dataShards == dataShards && result0.parityShards == parityShards && result0.numGoroutines == numGoroutines)
+//@   ensures iff(mathint(dataShards) + mathint(parityShards) <= 65535, result1 == nil)
+
+//@ func NewCoderPAR2Vandermonde
+//@   props C07 C12
+//@   global gensOK
+//@   panics dataShards <= 0 || parityShards <= 0 || numGoroutines <= 0
+//@   modifies nothing
+//@   ensures implies(result1 == nil, coderOK(result0) && result0.dataShards == dataShards && result0.parityShards == parityShards && result0.numGoroutines == numGoroutines)
+
+// Element functions (called only by NewMatrixFromFunction with 0 <= i < rows, 0 <= j < columns).
+//@ func newVandermondeParityMatrix$1
+//@   props C07
+//@   global gensOK
+//@   requires 0 <= i && i < 32768
+//@   modifies nothing
